@@ -474,10 +474,11 @@ template<class T, class RT, class OT>
         if (!vf::my_row()) continue;
         T a = make<T>(ra);
         Rat va = Rat(ra) * unit;
-        for (int k : {-7, -3, -1, 0, 1, 2, 5, 100}) {
+        for (int k : {-7, -3, -1, 0, 1, 2, 5, 100, std::numeric_limits<int>::max(), std::numeric_limits<int>::min()}) {
             auto id = [&] { return ra.str() + " op " + std::to_string(k); };
             if (vf::replaying() && !vf::case_selected(id())) continue;
             Rat vk{Big(k)};
+            std::string const kreg = (k == std::numeric_limits<int>::max() || k == std::numeric_limits<int>::min()) ? "/builtin_extreme" : "";
             auto exact_op = [&](const char* op, Rat const& want, auto&& f) {
                 using TR = decltype(f());
                 Rat got;
@@ -488,9 +489,9 @@ template<class T, class RT, class OT>
                 if (!o.ok()) {
                     if (signalled) vf::outcome(fits ? "builtin_signal_although_result_fits" : "ok_builtin_signal");
                     else
-                        vf::violation(std::string("builtin/") + op + "/" + o.str(), id(), id() + " " + op + ": " + o.str() + ", expected " + want.str());
+                        vf::violation(std::string("builtin/") + op + "/" + o.str() + kreg, id(), id() + " " + op + ": " + o.str() + ", expected " + want.str());
                 } else if (got != want)
-                    vf::violation(std::string("builtin/") + op + "/value/" + (fits ? "result_fits" : "result_exceeds_type"), id(), id() + " " + op + ": got " + got.str() + ", expected " + want.str());
+                    vf::violation(std::string("builtin/") + op + "/value/" + (fits ? "result_fits" : "result_exceeds_type") + kreg, id(), id() + " " + op + ": got " + got.str() + ", expected " + want.str());
                 else
                     vf::outcome(std::string("ok_builtin_") + op);
             };
@@ -519,7 +520,7 @@ template<class T, class RT, class OT>
                 rlt = k < a;
             });
             vf::validated(4);
-            if (!o.ok() || lt != (c < 0) || eq != (c == 0) || gt != (c > 0) || rlt != (c > 0)) vf::violation(std::string("builtin/compare/") + (o.ok() ? "value" : o.str()), id(), id() + ": comparisons with the built-in disagree with the values");
+            if (!o.ok() || lt != (c < 0) || eq != (c == 0) || gt != (c > 0) || rlt != (c > 0)) vf::violation(std::string("builtin/compare/") + (o.ok() ? "value" : o.str()) + kreg, id(), id() + ": comparisons with the built-in disagree with the values");
             else
                 vf::outcome("ok_builtin_compare");
         }
